@@ -234,6 +234,11 @@ def run_regions(ctx, res, cases, oracle, mode, known_ok=True):
             for b in bad: res.corr.append(b)
     return res
 
+def known_by_class(cls, prop=None):
+    for k in lib.load_known().get('known', []):
+        if k.get('class') == cls and (prop is None or prop in k['properties']): return k['what']
+    return None
+
 def known_class(e, prop=None):
     """the text of the known finding this failure belongs to, if known_findings.json lists it"""
     for k in lib.load_known().get('known', []):
@@ -772,6 +777,32 @@ def span_cases(ctx, res, prop):
                 res.failures.append({'kind': 'oracle', 'entry': 'span/' + k, 'rust_type': 'ConsecutiveIndexPairs<SpanRegion, _> (user-defined dense region, harness/src/span.rs)',
                                      'profile': prof, 'history': q, 'what': f, 'observed': io, 'known': None})
         res.per_profile[prof] = res.per_profile.get(prof, 0) + len(hist)
+    # D8b: the same unchecked precondition through a tuple of two usize-indexed regions (push (w, w+1)); histories that
+    # are dense by luck ([0, 1, 2]) must pass, the others are the known finding
+    thist = [('con_tup', q) for q in (['0', '1', '2'], ['0', '1', 'c', '0'], ['5'], ['0', '3'], ['0', '1', '1'], ['2', 'c', '7'])]
+    for prof in PROFILES:
+        obs = lib.run_impl('span', thist, prof)
+        for (k, q), io in zip(thist, obs):
+            res.evaluations += 1
+            io = [g[0] if g else '' for g in io]
+            want = []; f = None
+            for t, op in enumerate(q):
+                if t >= len(io): f = f'op {t}: no observation'; break
+                if op == 'c': want = []; continue
+                if io[t] != '%x' % len(want): f = f'op {t}: push of ({op}, {op}+1) returned {io[t]}, it is push number {len(want)} since the last reset'; break
+                want.append(int(op, 16))
+            if f is None and (len(io) != len(q) + 1 or gen.parse(io[-1]) != [('S', w) for w in want]):
+                f = f'final reads {io[-1]}, pushed first fields {[hex(w) for w in want]}'
+            if f:
+                dense = True; end = 0
+                for op in q:
+                    if op == 'c': end = 0
+                    else:
+                        if int(op, 16) != end: dense = False
+                        end = int(op, 16) + 1
+                res.failures.append({'kind': 'oracle', 'entry': 'span/con_tup', 'profile': prof, 'history': q, 'what': f, 'observed': io,
+                                     'rust_type': 'ConsecutiveIndexPairs<TupleABRegion<MirrorRegion<usize>, MirrorRegion<usize>>, Vec<usize>>',
+                                     'known': None if dense else known_by_class('consec-over-usize-pair-tuple', prop)})
     res.extra['span_exhaustive'] = f'{len(hist)} histories: all sequences of length {L} over 8 widths (up to 2^33) + clear + merge, 5 container arrangements'
 
 # ------------------------------------------------------------------ C13
@@ -1642,6 +1673,22 @@ def c18(ctx):
         return ref_oracle(e, ops, obs, [oracle_for(name, [tuple(o[:2]) for o in ops])], mo)
     run_regions(ctx, res, cases, oracle, 'values')
     run_impl_only(ctx, res, large, oracle)
+    # the dictionary codec's own memory (known finding D14: DictionaryCodec::heap_size is an empty stub)
+    if 'cdc' in EXPR:
+        word = [97, 98, 99, 100, 101, 102, 103, 104]
+        dops = [('push', 0, 0, word)] * 50 + [('merge', 1, [0])] + [('push', 1, 0, word)] * 50 + [('heap', 1), ('read', 1)]
+        dh = [('cdc', [op_str(o) for o in dops])]
+        for prof in PROFILES:
+            io = lib.run_impl('regions', dh, prof)[0]
+            res.evaluations += 1
+            hv = gen.parse(io[-2][0][2:]) if io[-2] and io[-2][0].startswith('v=') else None
+            used = sum(p_[0] for p_ in hv) if hv else None
+            need = 50 + len(word)    # 50 one-byte codes + the dictionary entry they stand for
+            if used is None or used < need:
+                res.failures.append({'kind': 'oracle', 'entry': 'cdc', 'rust_type': catalogue.rust_type(EXPR['cdc']), 'profile': prof,
+                                     'history': dh[0][1], 'observed': [' '.join(g) for g in io],
+                                     'what': f'op 101: heap_size accounts {used} used bytes for 50 stored codes of an {len(word)}-byte dictionary entry; codes + entry need {need}',
+                                     'known': known_by_class('codec-heap-size-stub', ctx.prop) if used == 50 else None})
     # the stack's own heap_size: region and index container both contribute at every moment (also when the stack is empty
     # but holds capacity: after clear, with_capacity, merge_capacity, reserve), used <= capacity, nothing shrinks on clear
     fscases = gen_fs_cases(ctx, list(FS_EXPR), 10 if not ctx.thorough else 100, 14, observe_each=True, p_cap=0.3)
@@ -2082,6 +2129,21 @@ def c07(ctx):
     def oracle(e, ops, obs, mo=None):
         return ref_oracle(e, ops, obs, [clause_for(e)], mo)
     run_regions(ctx, res, cases, oracle, 'full')
+    # a refused CELL of a row (known finding D13): the refusal must leave the columns region as it was
+    if 'cols_cdc' in EXPR:
+        abc, xyz = [97, 98, 99], [120, 121, 122]
+        base = [('push', 0, 0, [abc, xyz])] * 10 + [('merge', 1, [0]), ('push', 1, 0, [abc, xyz])]
+        rcases = [('cols_cdc', base + [('trypush', 1, 0, [abc, [0, 9, 9]]), ('push', 1, 0, [abc, xyz]), ('push', 1, 0, [abc]), ('read', 1)]),
+                  ('cols_cdc', base + [('trypush', 1, 0, [[0, 9, 9], xyz]), ('push', 1, 0, [abc, xyz]), ('read', 1)])]   # first cell refused: clean
+        before = len(res.failures); nb = len(res.corr)
+        run_regions(ctx, res, rcases, oracle, 'full')
+        for f in res.failures[before:]:
+            h = f.get('history', [])
+            if any(x.startswith('trypush') and '[61,62,63],[0,9,9]' in x for x in h) and not f.get('known'):
+                mo_fail = oracle(EXPR['cols_cdc'], rcases[0][1], project(rcases[0][1], [m.split(' ') for m in f.get('model', [])], 'full'), None) if f.get('model') else 'no model run'
+                if not mo_fail: f['known'] = known_by_class('refused-cell-in-columns', ctx.prop)
+        # the model goes on from the untouched state, the implementation from the damaged one: that disagreement is the finding itself
+        res.corr[nb:] = [c for c in res.corr[nb:] if not any(x.startswith('trypush') and '[61,62,63],[0,9,9]' in x for x in c.get('history', []))]
     return res
 
 
